@@ -7,10 +7,14 @@
 //! Phases: mkdirall, rwcopy (includes the read_to_end grid, also alone as `readend`), readdir, rmall, seq (includes the OpenOptions builder histories, also alone as `builder`).
 
 mod builder;
+mod copysrc;
+mod dirhandle;
+mod forged;
 mod mkdirall;
 mod readdir;
 mod readend;
 mod rmall;
+mod rmarg;
 mod rwcopy;
 mod seq;
 mod util;
@@ -43,7 +47,11 @@ fn main() {
         "rmall" => rmall::phase(&args, &master.path),
         "seq" => seq::phase(&args, &master.path),
         "builder" => builder::phase(&args, &master.path),
-        _ => panic!("unknown phase (mkdirall|rwcopy|readend|readdir|rmall|seq|builder)"),
+        "copysrc" => copysrc::phase(&args, &master.path),
+        "dirhandle" => dirhandle::phase(&args, &master.path),
+        "forged" => forged::phase(&args, &master.path),
+        "rmarg" => rmarg::phase(&args, &master.path),
+        _ => panic!("unknown phase (mkdirall|rwcopy|readend|copysrc|readdir|forged|dirhandle|rmall|rmarg|seq|builder)"),
     };
     drop(master);
     let (tb, why) = util::temp_base();
@@ -69,6 +77,16 @@ fn replay(v: &serde_json::Value, r: &mut Report) {
             // a read / read_to_string crash record wraps the case it followed
             let v = if v.get("of").is_some() { &v["of"] } else { v };
             rwcopy::run_case(&block, &rwcopy::RwCase::from_json(v).expect("rwcopy case"), r)
+        }
+        "copysrc" => copysrc::run_case(&block, &copysrc::CsCase::from_json(v).expect("copysrc case"), r),
+        "forged" => forged::run_case(&block, &forged::FgCase::from_json(v).expect("forged case"), r),
+        "rmarg" => rmarg::run_case(&block, &rmarg::RaCase::from_json(v).expect("rmarg case"), r),
+        "dirhandle" => {
+            if v.get("lifetime_probe").is_some() {
+                dirhandle::lifetime_probe(&block, r)
+            } else {
+                dirhandle::run_case(&block, &dirhandle::DhCase::from_json(v).expect("dirhandle case"), r)
+            }
         }
         "builder" => builder::run_case(&block, &builder::parse_case(v).expect("builder case"), r),
         "readend" => readend::run_case(&block, &readend::ReCase::from_json(v).expect("readend case"), r),
